@@ -269,6 +269,10 @@ class Model:
         if solver == "auto":
             solver = self._choose_solver()
 
+        if solver in ("dfs", "sat") and any(var.lb > var.ub for var in self._vars.values()):
+            # A variable with an empty domain admits no assignment at all
+            return Result(None, 0, 0, 0, Status.INFEASIBLE)
+
         if solver == "dfs":
             result = self._solve_dfs(hints=hints, solution_limit=solution_limit, **kwargs)
         elif solver == "sat":
